@@ -15,21 +15,22 @@ def gkey(tx, bh, em, seq):
 
 
 def gev(o, bh=None):
-    return "(mkEv %d %d %d %d %d %d %d)" % (o["tx"], o["bh"] if bh is None else bh, o["h"], o["em"], o["seq"], o["cl"], o["body"])
+    return "(mkEv %d %d %d %d %d %d %d %d %d)" % (o["tx"], o["bh"] if bh is None else bh, o["h"], o["em"], o["seq"], o["cl"], o["no"], o["tg"], o["body"])
 
 
 def gans(lk):
+    """(tx, err) of ethclient.TransactionReceipt as the simulated node made it answer"""
     if lk["c"] == 0:
-        return "RNotFound"
+        return "(mkAns None ENotFound)"      # JSON null -> (nil, ethereum.NotFound)
     if lk["c"] == 1:
-        return "RErr"
-    return "(RRcpt %d %d)" % (lk["st"], lk["bh"])
+        return "(mkAns None EOther)"         # injected RPC failure -> (nil, err)
+    return "(mkAns (Some (%d, %d)) ENone)" % (lk["st"], lk["bh"])
 
 
 def gop(o):
     t = o["t"]
     if t == "log":
-        return "(COp (OLog %s %d))" % (gev(o), o["bt"])
+        return "(COp (OLog %s (Some %d)))" % (gev(o), o["bt"])
     if t == "head":
         lks = core.glist("(%d, %s)" % (lk["tx"], gans(lk)) for lk in o["lk"])
         return "(CHead %d %s)" % (o["n"], lks)
@@ -43,26 +44,26 @@ def gop(o):
             logs = []
             for l in o["rc"]["logs"]:
                 ev = "None" if l["ev"] is None else "(Some %s)" % gev(l["ev"])
-                logs.append("(mkRLog %d (Some %d) %s)" % (l["a"], int(l["t0"], 16), ev))
-            rc = "(Some (mkRcpt %d %d %s))" % (o["rc"]["st"], o["rc"]["blk"], core.glist(logs))
-        return "(COp (OReobs %d %s %s %s %s))" % (o["tx"], hb, ha, rc, bt)
+                logs.append("(Some (mkRLog %d (Some %d) %s))" % (l["a"], int(l["t0"], 16), ev))
+            rc = "(Some (mkRcpt %d (Some %d) %s))" % (o["rc"]["st"], o["rc"]["blk"], core.glist(logs))
+        return "(COp (OReobs %s %s %s %s))" % (hb, ha, rc, bt)
     raise ValueError(t)
 
 
-def genc(m):
-    """message identity as one integer; must equal EvmWatcherCase.enc"""
-    return ((((m["body"] * 1048576 + m["tx"]) * 256 + m["cl"]) * 4294967296 + m["ts"]) * 65536 + m["em"]) * 1048576 + (m["seq"] % 1048576)
+def gmsg(m):
+    return "(mkMsg %d %d %d %d %d %d %d %d %d)" % (m["tx"], m["ts"], m["no"], m["seq"], m["ch"], m["tg"], m["em"], m["body"], m["cl"])
 
 
 def ggroup(g):
     ops = core.glist(gop(o) for o in g["ops"])
-    fw = core.glist(str(x) for x in sorted(genc(m) for m in g["fw"]))
+    fw = core.glist(gmsg(m) for m in g["fw"])
     pend = core.glist(gkey(*k) for k in g["pend"])
     return "(%s, %s, %s)" % (ops, fw, pend)
 
 
 def gcase(r):
-    return "(%s, %s)" % (core.gbool(r["cfg"]["wait"]), core.glist(ggroup(g) for g in r["groups"]))
+    # contract address 1 = the configured core contract (mRLog.a: 1 core, 2 other)
+    return "(mkCfg %s 1 %d, %s)" % (core.gbool(r["cfg"]["wait"]), r["chain"], core.glist(ggroup(g) for g in r["groups"]))
 
 
 def run(ctx):
@@ -142,8 +143,8 @@ def run(ctx):
         return
     # ---- model vs implementation, history by history, inside Coq
     good = [r for r in rows if not r.get("harness")]
-    okdef = "Definition ok (c : bool * list cgroup) : bool := let '(w, gs) := c in check_history w gs."
-    bad = core.run_cases(ctx, "cases_C10", good, HDR, "bool * list cgroup", gcase, okdef,
+    okdef = "Definition ok (c : cfg * list cgroup) : bool := let '(w, gs) := c in check_history w gs."
+    bad = core.run_cases(ctx, "cases_C10", good, HDR, "cfg * list cgroup", gcase, okdef,
                          weight=lambda r: sum(len(g["ops"]) + len(g["pend"]) for g in r["groups"]))
     if bad is None:
         return
